@@ -18,7 +18,7 @@ class Prop:
     id = "C12"
     level = "exploration"
     engine = "VT"
-    quick_runs = 50000
+    quick_runs = 100000
     thorough_runs = 2000000
     rule = ("outer timelines (0-5 elements) selecting among 2-3 inner cold/hot/sync sources with overlapping lifetimes through "
             "switch_latest, switch_map, switch_map_indexed and flat_map_latest (errors in stale and current inners, outer completion "
